@@ -15,7 +15,13 @@ import ExoVerif.Model.Epochs
     x/operator/keeper/genesis.go     ExportGenesis = current keys (GetAllOperatorConsKeyRecords) + previous keys
                                      (GetAllPrevConsKeys); InitGenesis = setOperatorConsKeyForChainIDUnchecked (forward
                                      and reverse entry of the CURRENT key) + SetAllPrevConsKeys (forward entry of the
-                                     previous key only; its reverse lookup ChainIDAndConsKeyToOperator is not rebuilt);
+                                     previous key and, since the F-18c repair, its ChainIDAndConsKeyToOperator reverse
+                                     lookup: `Prefixes.rebuildPrevReverse`). Reverse entries of keys whose PrevConsKey
+                                     record was already cleared at the end of the epoch (waiting in x/dogfood's prune
+                                     queue) are in no export (F-18i);
+    x/dogfood/keeper/genesis.go      val_set = the validators as stored by x/dogfood (GetAllExocoreValidators) since the
+                                     F-18h repair (`Prefixes.exportStoredKeys`); before, each stored key was resolved through
+                                     the operator module to the operator's CURRENT key (IterateBondedValidatorsByPower);
     x/epochs/keeper/genesis.go       ExportGenesis = AllEpochInfos, InitGenesis = AddEpochInfo per entry.
   Items of the per-epoch queues are opaque strings (the three value types are all `repeated bytes`); a maturity
   entry additionally lists the undelegation record ids it holds (`QEntry.recs`).
@@ -50,23 +56,30 @@ structure Prefixes where
   maturesSet : Nat
   /-- x/dogfood InitGenesis re-places the hold of every imported maturity record -/
   rebuildHolds : Bool
+  /-- x/operator SetAllPrevConsKeys also writes the reverse lookup of the previous key -/
+  rebuildPrevReverse : Bool
+  /-- x/dogfood ExportGenesis writes the stored validator keys (not the operators' current keys) -/
+  exportStoredKeys : Bool
 deriving DecidableEq, Repr, Inhabited
 
-/-- the code as it is (after the F-18a / F-18b repairs): every exporter iterates the prefix its setter writes,
-    holds are re-placed at import -/
+/-- the code as it is (after the F-18a / b / c / h repairs): every exporter iterates the prefix its setter writes,
+    holds are re-placed at import, previous keys get their reverse lookup back, val_set carries the stored keys -/
 def codePrefixes : Prefixes :=
-  { optOutsIter := 3, prunesIter := 5, maturesIter := 6, optOutsSet := 3, prunesSet := 5, maturesSet := 6, rebuildHolds := true }
+  { optOutsIter := 3, prunesIter := 5, maturesIter := 6, optOutsSet := 3, prunesSet := 5, maturesSet := 6, rebuildHolds := true,
+    rebuildPrevReverse := true, exportStoredKeys := true }
 /-- the code before the repairs: all three exporters iterated OptOutsToFinishBytePrefix (3), no hold was rebuilt.
     Kept for the regression theorems. -/
 def preFixPrefixes : Prefixes :=
-  { optOutsIter := 3, prunesIter := 3, maturesIter := 3, optOutsSet := 3, prunesSet := 5, maturesSet := 6, rebuildHolds := false }
+  { optOutsIter := 3, prunesIter := 3, maturesIter := 3, optOutsSet := 3, prunesSet := 5, maturesSet := 6, rebuildHolds := false,
+    rebuildPrevReverse := false, exportStoredKeys := false }
 
 structure Core where
   unds : List Und
   queues : List QEntry
   curKeys : List (String × String)    -- (operator, consensus address) of the current key
-  prevKeys : List (String × String)   -- (operator/chain key, consensus address) of replaced, not yet pruned keys
+  prevKeys : List (String × String)   -- (operator, consensus address) of the key replaced during the running epoch
   reverse : List (String × String)    -- (consensus address, operator): ChainIDAndConsKeyToOperator
+  vals : List (String × Int)          -- x/dogfood validator store: (consensus address of the key in effect, power)
   epochs : List EpochInfo
 deriving Repr, Inhabited
 
@@ -77,18 +90,31 @@ structure Doc where
   matures : List (Int × String × List String)
   curKeys : List (String × String)
   prevKeys : List (String × String)
+  valSet : List (String × Int)
   epochs : List EpochInfo
 deriving Repr, Inhabited
 
 def queueOf (p : Nat) (qs : List QEntry) : List (Int × String × List String) :=
   (qs.filter (fun q => q.pfx == p)).map (fun q => (q.epoch, q.item, q.recs))
 
+/-- x/operator ValidatorByConsAddrForChainID as IterateBondedValidatorsByPower used it: the consensus address is
+    resolved to its operator through the reverse index, the validator returned carries the operator's CURRENT key -/
+def currentKeyOf (s : Core) (cons : String) : String :=
+  match s.reverse.find? (fun r => r.1 == cons) with
+  | none => cons
+  | some r =>
+    match s.curKeys.find? (fun k => k.1 == r.2) with
+    | none => cons
+    | some k => k.2
+
 def exportDoc (P : Prefixes) (s : Core) : Doc :=
   { undelegations := s.unds.map (fun u => (u.id, u.complete, u.amount)),
     optOuts := queueOf P.optOutsIter s.queues,
     prunes := queueOf P.prunesIter s.queues,
     matures := queueOf P.maturesIter s.queues,
-    curKeys := s.curKeys, prevKeys := s.prevKeys, epochs := s.epochs }
+    curKeys := s.curKeys, prevKeys := s.prevKeys,
+    valSet := if P.exportStoredKeys then s.vals else s.vals.map (fun v => (currentKeyOf s v.1, v.2)),
+    epochs := s.epochs }
 
 /-- number of imported maturity entries that list record `id` (one IncrementUndelegationHoldCount each) -/
 def holdOf (ms : List (Int × String × List String)) (id : String) : Int :=
@@ -105,7 +131,8 @@ def init (P : Prefixes) (bt h : Int) (d : Doc) : Core :=
     queues := d.optOuts.map (fun r => ⟨P.optOutsSet, r.1, r.2.1, r.2.2⟩) ++ d.prunes.map (fun r => ⟨P.prunesSet, r.1, r.2.1, r.2.2⟩) ++
               d.matures.map (fun r => ⟨P.maturesSet, r.1, r.2.1, r.2.2⟩),
     curKeys := d.curKeys, prevKeys := d.prevKeys,
-    reverse := d.curKeys.map (fun k => (k.2, k.1)),
+    reverse := d.curKeys.map (fun k => (k.2, k.1)) ++ (if P.rebuildPrevReverse then d.prevKeys.map (fun k => (k.2, k.1)) else []),
+    vals := d.valSet,
     epochs := (d.epochs.filter valid).map (initEpoch bt h) }
 
 def roundtrip (P : Prefixes) (bt h : Int) (s : Core) : Core := init P bt h (exportDoc P s)
